@@ -812,7 +812,7 @@ _mod_load_static_modules(void)
 static int
 _mod_load_dynamic(const char *fq_path, opt_t *pdsh_opts)
 {
-    mod_t mod = NULL;
+    mod_t mod = NULL, prev;
     int *priority;
     assert(fq_path != NULL);
 
@@ -837,12 +837,19 @@ _mod_load_dynamic(const char *fq_path, opt_t *pdsh_opts)
      *   the same handle and the same pdsh_module_info: skip it, destroying
      *   it would clear type and name of the registered module.
      */
-    if (_is_loaded(mod->filename)
-        || list_find_first(module_list, (ListFindF) _cmp_handles, mod->handle)) {
-        /* Module already loaded. This is OK, no need for
-         *   error message. (Could have already opened a .la and
-         *   we are now opening the corresponding .so
+    if (_is_loaded(mod->filename))
+        goto fail;      /* already loaded (.la and .so): no message needed */
+    if ((prev = list_find_first(module_list, (ListFindF) _cmp_handles,
+                                mod->handle))) {
+        /*  Keep the smaller of the object's names: ties between duplicates
+         *   are broken by file name, and which name readdir() returned first
+         *   must not matter.
          */
+        if (strcmp(mod->filename, prev->filename) < 0) {
+            char *tmp = prev->filename;
+            prev->filename = mod->filename;
+            mod->filename = tmp;
+        }
         goto fail;
     }
 
